@@ -135,24 +135,30 @@ func (e *kvElection) heartbeatLoop(ctx context.Context) {
 				// Check if it's a revision mismatch (possible priority takeover)
 				// Revision mismatch errors contain "revision mismatch" in the message
 				if strings.Contains(strings.ToLower(updateErr.Error()), "revision mismatch") {
-					// Get current leader to check if it's a priority takeover
-					entry, getErr := e.kv.Get(e.key)
-					if getErr == nil && entry != nil {
-						var currentPayload leadershipPayload
-						if json.Unmarshal(entry.Value(), &currentPayload) == nil {
-							if currentPayload.ID != e.cfg.InstanceID {
-								// We were taken over!
-								log.Warn("leadership_taken_over",
-									append(e.logWithContext(ctx),
-										zap.String("new_leader", currentPayload.ID),
-										zap.Int("new_priority", currentPayload.Priority),
-										zap.Int("our_priority", e.cfg.Priority),
-										zap.Uint64("revision", entry.Revision()),
-									)...,
-								)
+					// Diagnostics only: find out who took over. The read must not
+					// delay the demotion below, so it runs on its own (tracked)
+					// goroutine instead of in the heartbeat loop.
+					e.wg.Add(1)
+					go func() {
+						defer e.wg.Done()
+						entry, getErr := e.kv.Get(e.key)
+						if getErr == nil && entry != nil {
+							var currentPayload leadershipPayload
+							if json.Unmarshal(entry.Value(), &currentPayload) == nil {
+								if currentPayload.ID != e.cfg.InstanceID {
+									// We were taken over!
+									log.Warn("leadership_taken_over",
+										append(e.logWithContext(ctx),
+											zap.String("new_leader", currentPayload.ID),
+											zap.Int("new_priority", currentPayload.Priority),
+											zap.Int("our_priority", e.cfg.Priority),
+											zap.Uint64("revision", entry.Revision()),
+										)...,
+									)
+								}
 							}
 						}
-					}
+					}()
 				}
 
 				if IsPermanentError(updateErr) {
